@@ -84,10 +84,11 @@ func runC18(e *Engine, g G, o RunOpt) RunInfo {
 		sc.LatencyNs = 0
 		sc.RefuseDial = sc.Reconnect && g.Pct("reconnection-refused", 50)
 	}
-	if sc.End == "server-close" && !sc.OnTick && !sc.Busy && !sc.Block && !sc.Reconnect && !sc.TLS && !sc.Client.WebSocket && g.Pct("stalled-peer", 30) {
+	if sc.End == "server-close" && !sc.OnTick && !sc.Busy && !sc.Block && !sc.Reconnect && !sc.TLS && !sc.Client.WebSocket && g.Pct("stalled-peer", 75) {
 		sc.Stalled = true
 		sc.LatencyNs = 0
-		sc.UnstallMs = []int{0, 5000}[g.N("unstall", 2)]
+		// (never again; well within the connect timeout; after every bounded wait of the receiver is over)
+		sc.UnstallMs = []int{0, 5000, 1000*sc.Client.ConnectTimeout + 5000}[g.N("unstall", 3)]
 		// the server also asks for an acknowledgement: the answer is one more write held up
 		sc.StalledAck = g.Bool("stalled-ack-request")
 	}
@@ -374,7 +375,9 @@ func runC18(e *Engine, g G, o RunOpt) RunInfo {
 	// 2. after the session has ended no keepalive is written
 	if sc.End != "none" && tEnd >= 0 {
 		for _, k := range kas {
-			if k.At > tEnd {
+			// (a ping that was already being written when the session ended - held up by a peer that did
+			// not read - is a keepalive of the session; what starts after the end is not)
+			if k.At > tEnd && k.Start > tEnd {
 				e.Violate("C18", "keepalive-after-end", "keepalive written at %v, session ended (%s) at %v", k.At, sc.End, tEnd)
 				break
 			}
